@@ -64,7 +64,7 @@ class Bus:
         o.update(opts or {})
         self.o = o
         eo = int(S.cfg.get("CONFIG_ELEMENT_TABLE_ORDER", 13))
-        base = ["a", "a/b", "a/b/c", "A/b", "ab", "b", "b/a", "ü/x", "x", "B", "a/B/c", "abc", "c/a"]
+        base = ["a", "a/b", "a/b/c", "A/b", "ab", "b", "b/a", "ü/x", "x", "B", "a/B/c", "abc", "c/a", "z/Zone", "Z/zONE"]      # (the last two: the letters at the end of the alphabet, in both cases)
         if o["colliding"]:
             base = base[:5] + colliding_paths(eo, o["colliding"], prefix="k")
         if o.get("cluster"):
@@ -73,6 +73,9 @@ class Bus:
             base = base[:3] + cluster_paths(eo, first, nb, per)
         if o.get("rich"):
             base = base + ["", " ", "p" * 150, "\u00e4\u00f6\u00fc\u20ac\U0001F600", "a\tb\"c\\d", "\u0001", "q/" * 40, "A/B", "a/b/",
+                           # a character outside ASCII directly followed by a letter or digit that is also a hexadecimal digit (sent escaped as
+                           # \uXXXX in half of the requests: where does the escape end?)
+                           "temp/\u00e91", "\u00dfe", "\u00b0C", "\u00e9a", "\u00e9",
                            # paths that are not UTF-8 (escaped surrogates stand for the raw bytes): truncated at the end, stray continuation
                            "caf\udcc3", "eur\udce2\udc82", "\udc80x", "t/\udcf0\udc9f\udc98"]
         self.paths = o["paths"] or base
@@ -86,7 +89,7 @@ class Bus:
 
     # (no string with an embedded NUL: the vendored JSON library documents that it cannot hold one - "\u0000" is cut off there - so
     # such values stay out of the behavioural oracles and are only used where "no crash" is the question)
-    SPECIAL_VALUES = [None, False, True, 0, -1, 0.5, "", " ", "null", "true", {}, [], [None], {"": None}, {"value": None}, [[]], "\u00fc", "a\"b\\c/d",
+    SPECIAL_VALUES = [None, False, True, 0, -1, 0.5, "", " ", "null", "true", {}, [], [None], {"": None}, {"value": None}, [[]], "\u00fc", "a\"b\\c/d", "\u00e9a1", "\u00b0C",
                       2147483648, 4294967296, 1e15, "x" * 200]
 
     def val(self, c, bare_ok=False):
